@@ -368,6 +368,8 @@ func h2h3(w *World, r *Report, name string) {
 		return ""
 	}
 	run := func(facts ...atom) ([]pathEnd, bool) {
+		w.resolveFallible = true
+		defer func() { w.resolveFallible = false }()
 		fe := w.newFactEval(nil, facts...)
 		saved := w.branchMarkers
 		w.branchMarkers = false
@@ -530,10 +532,17 @@ func (w *World) canonResolved(v ssa.Value) string {
 		if cal == nil || !w.InModule(cal) || cal.Blocks == nil || len(cal.Params) != len(call.Common().Args) {
 			break
 		}
+		// only plain value producers are looked through; a helper that can fail keeps
+		// its identity (its result is "the result of that step", not an expression)
+		if errResultIndex(cal) >= 0 && !w.resolveFallible {
+			break
+		}
 		env := map[*ssa.Parameter]string{}
 		for j, p := range cal.Params {
 			env[p] = w.canonResolved(call.Common().Args[j])
 		}
+		savedShallow := w.shallowResolve
+		w.shallowResolve = true
 		var eval func(ssa.Value) (bool, bool) = func(ssa.Value) (bool, bool) { return false, false }
 		if w.cur != nil && w.cur.eval != nil {
 			eval = w.cur.eval
@@ -553,6 +562,7 @@ func (w *World) canonResolved(v ssa.Value) string {
 			s = w.canonResolved(nonNil[0])
 		}
 		w.inlineEnv = w.inlineEnv[:len(w.inlineEnv)-1]
+		w.shallowResolve = savedShallow
 		if s != "" {
 			return s
 		}
